@@ -127,7 +127,9 @@ func init() {
 		u := fr.u
 		v, x := args[0].T, args[1].T
 		rvDecls(u)
-		u.libpre(fr, st, "reflect.Value.Set", and(app("rv_canset", v), app("rv_valid", x), u.assignableDef(app("rv_type", x), app("rv_type", v))), pos, "reflect: Set with an invalid, unassignable value or on an unsettable target panics")
+		u.libpre(fr, st, "reflect.Value.Set.valid", app("rv_valid", x), pos, "reflect: Set of the zero Value (nil) panics")
+		u.libpre(fr, st, "reflect.Value.Set.canset", app("rv_canset", v), pos, "reflect: Set on an unsettable target panics")
+		u.libpre(fr, st, "reflect.Value.Set.assignable", u.assignableDef(app("rv_type", x), app("rv_type", v)), pos, "reflect: Set with an unassignable value panics")
 		u.note("reflect.Value.Set: the written value is not tracked (reflect-built results are opaque)")
 		return &Val{K: vNone}
 	})
